@@ -212,6 +212,12 @@ def make_tree(kind, seed, t):
             for a in list(n.attributes)[:1]:
                 n.add_extras("xml:" + a, "shadow of " + str(n.attributes[a]))
         return root
+    if kind == "shared-ids":
+        # ids are the caller's business: here pairs of nodes carry one id (a fragment loaded twice, explicit constructor ids), and
+        # one node object is listed under two parents of a detached side tree - reading such a tree changes neither it nor the registry
+        base = tables.TreeGen(t, seed, max_depth=3, breadth=3).gen(rnd.choice(["dataset", "creator", "eml"]))
+        root = valtrace.reid(base, idfn=lambda i: "id-%d" % (i // 2))       # nodes 2k and 2k+1 share an id
+        return root
     if kind == "falsy":
         # every optional field of every node (the root included) holds its FALSY non-None value: tail "", content "", attribute
         # and extras values "", a prefix "" - a save/restore guarded by `if value:` does not put these back
@@ -427,12 +433,12 @@ def run(rep, tier, seed):
     rnd = random.Random(seed)
     jobs = []
     # all ordered pairs on small trees of every kind
-    for i, kind in enumerate(["generated", "entities", "ns", "default-ns", "shadowed", "falsy"] + (["generated", "entities"] if tier == "thorough" else [])):      # (small trees: 31^2 pairs of calls each)
+    for i, kind in enumerate(["generated", "entities", "ns", "default-ns", "shadowed", "falsy", "shared-ids"] + (["generated", "entities"] if tier == "thorough" else [])):      # (small trees: 31^2 pairs of calls each)
         jobs.append((kind, seed * 101 + i, plan_pairs))
     # seeded sequences of length 24 on larger trees, incl. the fixture
-    nseq = 24 if tier == "quick" else 312
+    nseq = 26 if tier == "quick" else 312
     for i in range(nseq):
-        kind = ["fixture", "generated", "entities", "ns", "default-ns", "mutated", "stripped", "exotic", "unregistered", "padded-typed", "shadowed", "falsy"][i % 12]
+        kind = ["fixture", "generated", "entities", "ns", "default-ns", "mutated", "stripped", "exotic", "unregistered", "padded-typed", "shadowed", "falsy", "shared-ids"][i % 13]
         jobs.append((kind, seed * 977 + i, [rnd.choice(sorted(ops)) for _ in range(24)]))
     jobs.append(("abyss", 1100, []))
     traces = [tr for chunk in parallel(w_record, jobs, chunk=1) for tr in chunk]
